@@ -373,3 +373,13 @@ mutant("c15-slice-size-too-big", "C15", "C15.const.block", FCOMP, "             
 mutant("c15-window-not-from-matcher", "C15", "C15.window", FCOMP, "            window_size: Some(self.state.matcher.window_size()),", "            window_size: Some(self.state.matcher.window_size() / 2),")
 mutant("c15-literals-fallback-dropped", "C15", "C15.flow", COMP, "    if total_len >= literals.len() {", "    if total_len >= literals.len() * 2 {")
 mutant("c15-garbage-after-frame", "C15", "C15.flow", FCOMP, "        // If the `hash` feature is enabled, then `content_checksum` is set to true in the header", "        if self.state.last_huff_table.is_some() && false { drain.write_all(&[0u8]).unwrap(); }\n        // If the `hash` feature is enabled, then `content_checksum` is set to true in the header")
+
+# ---- rename-robustness probes (behaviour-preserving) -------------------------------------
+benign("rn-c13-weight1", "C13", HUFE, "weight1", "first_w", count=3)
+benign("rn-c13-dec1", "C13", HUFD, "dec1", "even_dec", count=5)
+benign("rn-c13-split-size", "C13", HUFE, "split_size", "part_len", count=5)
+benign("rn-c17-match-entry", "C17", MGEN, "match_entry", "cand_entry", count=12)
+benign("rn-c15-compressed", "C15", FAST, "compressed_size", "enc_len", count=5)
+benign("rn-c02-last-block", ["C02", "C15", "C08"], FCOMP, "last_block", "is_final", count=7)
+benign("rn-c02-uncompressed", ["C02", "C15", "C08"], FCOMP, "uncompressed_data", "block_buf", count=17)
+benign("rn-c12-table-size", "C12", FSEE, "fn next_position(mut p: usize, table_size: usize) -> usize {\n    p += (table_size >> 1) + (table_size >> 3) + 3;\n    p &= table_size - 1;", "fn next_position(mut p: usize, size: usize) -> usize {\n    p += (size >> 1) + (size >> 3) + 3;\n    p &= size - 1;")
